@@ -8,6 +8,12 @@
 //!                                     then the cells are overwritten with the values on the line and
 //!                                     the matrices are taken.
 //! Answer   `ok <n> <square().matrix()> | <n> <matrix()>`   or   `err <Constructor>`   or `panic`
+//!
+//! Request  `sqact <mask> <term> | <psi1> | <psi2> | <Psi>`   the same case again (mask all `d` when every parameter is
+//!                                     Direct), now with what the returned gate DOES: psi1, psi2 are state vectors of
+//!                                     2^n amplitudes, Psi a 2^n x 3 matrix (row-major), all with fixed non-symmetric entries
+//! Answer   `ok <n> <square().matrix()> | <n> <matrix()> | <square().apply(psi1)> | <square().apply_slice(psi2)> |
+//!           <square().apply_mat(Psi)>`   or   `err <Constructor>`   or `panic`
 use q1t_harness::*;
 use q1t_harness::gate;
 use q1tsim::arithmetic::Square;
@@ -127,7 +133,18 @@ fn err_name(e: &q1tsim::error::Error) -> String
     }
 }
 
-fn emit<G>(out: &mut Out, cx: Cx, tg: TG<G>)
+fn show_vec<'a, It: Iterator<Item = &'a num_complex::Complex64>>(it: It) -> String
+{
+    it.map(|c| format!("{} {}", fbits(c.re), fbits(c.im))).collect::<Vec<_>>().join(" ")
+}
+
+/// dyadic entries in (-2, 2), never symmetric under an exchange of qubits
+fn gen_amps(rng: &mut SplitMix64, n: usize) -> Vec<num_complex::Complex64>
+{
+    (0..n).map(|i| num_complex::Complex64::new((rng.range(-63, 63) as f64 + 0.5) / 32.0, (rng.range(-63, 63) as f64 + (i % 2) as f64 * 0.25) / 32.0)).collect()
+}
+
+fn emit<G>(out: &mut Out, mut cx: Cx, tg: TG<G>)
 where G: Square + Gate, G::SqType: Gate
 {
     let (term, g) = tg;
@@ -142,6 +159,34 @@ where G: Square + Gate, G::SqType: Gate
         }
     }));
     out.case(&req, &ans.unwrap_or_else(|| "panic".to_string()));
+    // the action of the returned gate (a gate may have a correct matrix() and still ACT differently)
+    {
+        // the cells hold the decoy again while square() is called
+        for (c, _) in cx.refs.iter() { *c.borrow_mut() = 0.125; }
+        for (b, _) in cx.ffis.iter() { b.set(0.125); }
+        let dim = 1usize << g.nr_affected_bits();
+        let (psi1, psi2, psi3) = (gen_amps(&mut cx.rng, dim), gen_amps(&mut cx.rng, dim), gen_amps(&mut cx.rng, 3 * dim));
+        let req = format!("sqact {} {} | {} | {} | {}", if cx.mask.is_empty() { "d" } else { &cx.mask }, term,
+            show_vec(psi1.iter()), show_vec(psi2.iter()), show_vec(psi3.iter()));
+        let ans = catch(std::panic::AssertUnwindSafe(|| {
+            let sq = g.square();
+            cx.overwrite();
+            match sq
+            {
+                Ok(sq) => {
+                    let mut v1 = ndarray::Array1::from_vec(psi1.clone());
+                    sq.apply(&mut v1);
+                    let mut v2 = ndarray::Array1::from_vec(psi2.clone());
+                    sq.apply_slice(v2.view_mut());
+                    let mut m3 = ndarray::Array2::from_shape_vec((dim, 3), psi3.clone()).unwrap();
+                    sq.apply_mat(&mut m3);
+                    format!("ok {} | {} | {} | {} | {}", show_mat(&sq.matrix()), show_mat(&g.matrix()), show_vec(v1.iter()), show_vec(v2.iter()), show_vec(m3.iter()))
+                },
+                Err(e) => err_name(&e)
+            }
+        }));
+        out.case(&req, &ans.unwrap_or_else(|| "panic".to_string()));
+    }
 }
 
 /// one pass over the static list; `kinds` cycles over the parameters of each case
@@ -203,6 +248,23 @@ fn pass(out: &mut Out, rng: &mut SplitMix64, kinds: &str)
     case!(cx, c(k0("CCX", CCX::new())));
     case!(cx, kron(k0("CCZ", CCZ::new()), ry(&mut cx)));
     case!(cx, c(c(kron(k0("Z", Z::new()), k0("S", S::new())))));
+    // Kronecker products whose factors have different widths (their squares ACT through Kron::apply_slice)
+    case!(cx, kron(crx(&mut cx), ry(&mut cx)));
+    case!(cx, kron(ry(&mut cx), crz(&mut cx)));
+    case!(cx, kron(ry(&mut cx), ccrx(&mut cx)));
+    case!(cx, kron(ccry(&mut cx), rx(&mut cx)));
+    case!(cx, kron(kron(crx(&mut cx), k0("H", H::new())), ry(&mut cx)));
+    case!(cx, kron(rz(&mut cx), kron(k0("T", T::new()), cry(&mut cx))));
+    case!(cx, kron(lp(&mut cx, 1), ry(&mut cx)));
+    case!(cx, kron(ry(&mut cx), lp(&mut cx, 2)));
+    case!(cx, kron(lp1(&mut cx, 1), lp(&mut cx, 1)));
+    case!(cx, c(kron(crx(&mut cx), ry(&mut cx))));
+    case!(cx, c(kron(ry(&mut cx), crz(&mut cx))));
+    case!(cx, c(c(kron(k0("T", T::new()), cry(&mut cx)))));
+    case!(cx, c(kron(lp(&mut cx, 1), rx(&mut cx))));
+    case!(cx, kron(c(kron(ry(&mut cx), crz(&mut cx))), k0("V", V::new())));
+    case!(cx, kron(k0("T", T::new()), k0("CV", CV::new())));
+    case!(cx, kron(k0("CS", CS::new()), k0("V", V::new())));
 }
 
 fn main()
